@@ -131,7 +131,14 @@ fn source(decls: &[Decl]) -> String {
     s.push_str("struct CbS { float4 v; };\n");
     for (i, d) in decls.iter().enumerate() {
         match d {
-            Decl::Other => s.push_str(&format!("struct S{} {{ int x; }};\n", i)),
+            // every kind of root definition that is never bound (one root definition each), chosen by position
+            Decl::Other => s.push_str(&match i % 5 {
+                0 => format!("struct S{} {{ int x; }};\n", i),
+                1 => format!("template<typename T> struct S{} {{ T x; }};\n", i),
+                2 => format!("enum S{} {{ S{}_A }};\n", i, i),
+                3 => format!("void S{}(int x);\n", i),
+                _ => format!("void S{}(int x) {{}}\n", i),
+            }),
             Decl::StaticObject { set, kind, len } => {
                 if let Some(g) = set {
                     s.push_str(&format!("[[rssl::bind_group({})]] ", g));
@@ -500,7 +507,7 @@ pub fn run(args: &Args, out: &mut Out) {
             let f: Vec<&str> = line.split('\t').collect();
             if f.first() == Some(&"C06.src") && f.len() == 3 {
                 // debugging aid (not part of the protocol): compile a literal source text, print what comes back
-                if let Some(tgt) = crate::compile_util::Tgt::parse(f[1]) {
+                if let Some(tgt) = e2e::Cfg::parse(f[1]) {
                     let src = f[2].replace("\\n", "\n");
                     let o = e2e::compile(&src, tgt, &crate::compile_util::Mode::All);
                     eprintln!("{}\n--> {}", src, e2e::show_outcome(&o));
@@ -581,17 +588,26 @@ pub fn run(args: &Args, out: &mut Out) {
             matrix += 1;
         }
     }
+    // the spelling matrix (quick: five kinds drawn from the seed, thorough: every kind, twice)
+    let mut spelled = 0;
+    for _ in 0..(if args.thorough() { 2 } else { 1 }) {
+        for prog in e2e::spelling_progs(&mut erng, args.thorough()) {
+            e2e::run_prog(&prog, &mut erng, out, &mut hist);
+            spelled += 1;
+        }
+    }
     for k in 0..programs {
         // every other program has at least two pipelines (a layout must not leak from one pipeline to the next)
         let prog = e2e::gen_prog(&mut erng, if k % 2 == 0 { 2 } else { 0 });
         e2e::run_prog(&prog, &mut erng, out, &mut hist);
     }
     out.stat(&format!(
-        "{{\"sequences\":{},\"configs_per_sequence\":{},\"e2e_programs\":{},\"e2e_declarator_matrix_programs\":{},\"hist\":{}}}",
+        "{{\"sequences\":{},\"configs_per_sequence\":{},\"e2e_programs\":{},\"e2e_declarator_matrix_programs\":{},\"e2e_spelling_matrix_programs\":{},\"hist\":{}}}",
         seqs,
         configs.len(),
         programs,
         matrix,
+        spelled,
         hist.json()
     ));
 }
